@@ -3142,7 +3142,10 @@ class State:
     def _end_bet_collection(self) -> None:
         assert not self.bet_collection_status
 
-        if self.street is self.streets[-1] and self.street_return_count:
+        if (
+                self.street_index == len(self.streets) - 1
+                and self.street_return_count
+        ):
             assert self.street_return_index is not None
 
             self.street_index = self.street_return_index - 1
@@ -3152,7 +3155,7 @@ class State:
             self._begin_chips_pushing()
         elif self.street is None:
             self._begin_blind_or_straddle_posting()
-        elif self.street is self.streets[-1] or self.all_in_status:
+        elif self.street_index == len(self.streets) - 1 or self.all_in_status:
             self._begin_showdown()
         else:
             self._begin_dealing()
@@ -4251,7 +4254,7 @@ class State:
         assert self.opener_index is not None
 
         self.bring_in_status = (
-            self.street is self.streets[0]
+            self.street_index == 0
             and self.bring_in > 0
         )
         self.completion_status = self.bring_in_status
@@ -5181,7 +5184,7 @@ class State:
 
         if (
                 self.all_in_status
-                and self.street is not self.streets[-1]
+                and self.street_index != len(self.streets) - 1
                 and sum(self.statuses) > 1
         ):
             self._begin_dealing()
@@ -5501,7 +5504,7 @@ class State:
             hole_cards = tuple(filter(None, cards))
             hole_card_statuses = (True,) * len(hole_cards)
 
-            if self.street is not self.streets[-1]:
+            if self.street_index != len(self.streets) - 1:
                 count = len(self.hole_cards[player_index]) - len(hole_cards)
                 hole_cards += tuple(
                     filterfalse(
@@ -5545,7 +5548,7 @@ class State:
         ):
             if self.all_in_status:
                 raise ValueError('The player must show when all-in.')
-            elif self.street is self.streets[-1]:
+            elif self.street_index == len(self.streets) - 1:
                 raise ValueError('A card is not shown in final showdown.')
             else:
                 raise ValueError('All hole cards must be shown.')
